@@ -18,5 +18,10 @@ def run(ctx, res):
                 "schedule), ended by Close + EOF + ending every context; every log is replayed through the Coq client model "
                 "(projection c05: everything incl. hook invocations, channel Close, goroutines alive and pending count at "
                 "quiescent points) and judged by the monitors (exactly one return per operation, context outcome, "
-                "no transmission after stop, OnCancel/OnStop counts, goroutines left, hangs); non-trivial = distinct log with a "
+                "no transmission after stop, OnCancel/OnStop counts, goroutines left, hangs); every 6th scenario runs in racing "
+                "mode (policy race: no scheduler, the hook points and a Logger given to the client yield pseudo-randomly, the "
+                "end of an operation's context and the peer's reply to that very request are issued back to back in either "
+                "order, an instant peer answers from inside Send, Close / Recv errors / Send faults race with replies; half "
+                "on one processor, half in parallel) and is judged by the monitors, by what holds at its quiescent points "
+                "and by crash / hang / leak detection only, not by model acceptance; non-trivial = distinct log with a "
                 "transmitted request and a cancel/deadline/Close/failure")
